@@ -115,15 +115,20 @@ fn snap_rows(s: &CacheSnapshot<u64, u64>) -> Vec<(u64, u64, u64, i64)> {
   rows
 }
 
-fn run(toks: &[&str]) -> String {
+/// Runs one case, sending each op's output as it is produced (`None` = case finished).
+fn run_case(toks: Vec<String>, tx: std::sync::mpsc::Sender<Option<String>>) {
+  let toks: Vec<&str> = toks.iter().map(|s| s.as_str()).collect();
   let num = |s: &str| s.parse::<u64>().unwrap();
   let (shards, cap, ttl, _tti) = (num(toks[0]) as usize, num(toks[1]), num(toks[2]), num(toks[3]));
   verif_time::set_virtual(ms(1000));
   let mut cache: C = match builder(shards, cap, ttl, num(toks[3])).build() {
     Ok(c) => c,
-    Err(e) => return format!("BUILD-ERROR {e:?}"),
+    Err(e) => {
+      let _ = tx.send(Some(format!("BUILD-ERROR {e:?}")));
+      let _ = tx.send(None);
+      return;
+    }
   };
-  let mut outs: Vec<String> = Vec::new();
   let mut i = 4;
   while i < toks.len() {
     let r = catch_unwind(AssertUnwindSafe(|| -> (usize, String, Option<C>) {
@@ -234,13 +239,44 @@ fn run(toks: &[&str]) -> String {
     }));
     match r {
       Ok((adv, s, newc)) => {
-        outs.push(s);
+        let _ = tx.send(Some(s));
         if let Some(c) = newc {
           cache = c;
         }
         i += adv;
       }
       Err(_) => {
+        let _ = tx.send(Some("PANIC".to_string()));
+        break;
+      }
+    }
+  }
+  let _ = tx.send(None);
+}
+
+/// Watchdog: an op that does not return within 30 s is the output `HANG`; the stuck thread is
+/// abandoned and the rest of this process's cases are answered `SKIPPED-AFTER-HANG` (a spinning
+/// thread would distort them).  Never triggers on the unchanged tree.
+fn run(toks: &[&str]) -> String {
+  use std::sync::atomic::{AtomicBool, Ordering};
+  static HUNG: AtomicBool = AtomicBool::new(false);
+  if HUNG.load(Ordering::SeqCst) {
+    return "SKIPPED-AFTER-HANG".to_string();
+  }
+  let owned: Vec<String> = toks.iter().map(|s| s.to_string()).collect();
+  let (tx, rx) = std::sync::mpsc::channel();
+  std::thread::spawn(move || run_case(owned, tx));
+  let mut outs: Vec<String> = Vec::new();
+  loop {
+    match rx.recv_timeout(Duration::from_secs(30)) {
+      Ok(Some(s)) => outs.push(s),
+      Ok(None) => break,
+      Err(std::sync::mpsc::RecvTimeoutError::Timeout) => {
+        HUNG.store(true, Ordering::SeqCst);
+        outs.push("HANG".to_string());
+        break;
+      }
+      Err(std::sync::mpsc::RecvTimeoutError::Disconnected) => {
         outs.push("PANIC".to_string());
         break;
       }
